@@ -625,6 +625,22 @@ def op_ind_parent(rng, tc, mode=None):
     return f"individual-parent:{mode}"
 
 
+def op_ind_parent_row(rng, tc, shape, bad):
+    """Replace the WHOLE parents list of one individual: an out-of-range id placed after / before a NULL entry, after a
+    valid one, alone, or as the last of three (a check that stops at the first NULL or the first entry misses these)."""
+    t = tc.individuals
+    n = t.num_rows
+    if n == 0:
+        return None
+    j = pick(rng, n)
+    b = {"n": n, "n+1": n + 1, "-2": -2, "int-max": 2 ** 31 - 1, "int-min": -(2 ** 31)}[bad]
+    good = (j + 1) % n if n > 1 else -1
+    parents = {"null,bad": [-1, b], "bad,null": [b, -1], "good,bad": [good, b], "bad": [b], "null,null,bad": [-1, -1, b],
+               "good,null,bad": [good, -1, b]}[shape]
+    t[j] = t[j].replace(parents=np.array(parents, dtype=np.int32))
+    return f"individual-parents-row:{shape}:{bad}"
+
+
 def op_edge_rows(rng, tc, mode=None):
     """Change the NUMBER of edge rows (after the index was built this leaves an index of the wrong length, which
     has_index() must not report as an index)."""
@@ -860,6 +876,12 @@ def _catalogue():
             C.append((f"adjacent:{what[0]}.{what[1]}:{mode}", what[0] + "2", lambda rng, tc, w=what, mo=mode: op_adjacent(rng, tc, w, mo)))
     for mode in ("self", "later", "last", "null"):
         C.append((f"individual-parent:{mode}", "indparents", lambda rng, tc, mo=mode: op_ind_parent(rng, tc, mo)))
+    for shape in ("null,bad", "bad,null", "good,bad", "bad", "null,null,bad", "good,null,bad"):
+        for bad in ("n", "n+1", "-2", "int-max", "int-min"):
+            if shape in ("bad", "good,null,bad") and bad in ("n+1", "int-min"):
+                continue
+            C.append((f"individual-parents-row:{shape}:{bad}", "individuals",
+                      lambda rng, tc, sh=shape, b=bad: op_ind_parent_row(rng, tc, sh, b)))
     for mode in ("truncate-1", "truncate-all", "append-root", "append-copy"):
         C.append((f"edge-rows:{mode}", "edges", lambda rng, tc, mo=mode: op_edge_rows(rng, tc, mo)))
     for mode in ("ordered", "reversed", "gap-ulp", "overlap-ulp", "same-left"):
